@@ -1,21 +1,59 @@
 #!/usr/bin/env python3
-"""dev helper: run rule modules on an existing facts dir without re-extracting: dev.py <factsdir> Cxx [Cyy...]"""
-import sys, importlib, traceback
+"""dev helper: run rule modules on an existing facts dir without re-extracting: dev.py <factsdir> Cxx [Cyy...]
+A rule that asks for another configuration (ck.extract("profile")) gets the facts cached beside the directory (<factsdir>.profile);
+they are produced on first use — from /repo for .cache/dev, from a scratch copy with $DEVP_PATCH applied for a devpatch cache."""
+import sys, os, shutil, importlib, importlib.machinery, importlib.util, traceback
 sys.path.insert(0,'/verif')
 from rules import facts, engine
-PR=facts.Program(sys.argv[1])
+D=sys.argv[1].rstrip('/')
+PR=facts.Program(D)
 tier='quick'
+
+
+def _vf():
+    loader = importlib.machinery.SourceFileLoader('vf_cli', '/verif/vf')
+    spec = importlib.util.spec_from_loader('vf_cli', loader)
+    vf = importlib.util.module_from_spec(spec)
+    loader.exec_module(vf)
+    return vf
+
+
+_PROGS = {}
+
+
+def extract(config):
+    d = D + '.' + config
+    if d in _PROGS:
+        return _PROGS[d]
+    if not os.path.isdir(d):
+        vf = _vf()
+        patch = os.environ.get('DEVP_PATCH')
+        if patch:
+            from rules import selftest
+            scratch = selftest.make_scratch('/repo', 'devp')
+            try:
+                selftest.apply_patch(scratch, patch)
+                f, run_id, secs = vf.extract(scratch, config)
+                shutil.copytree(f, d)
+            finally:
+                shutil.rmtree(scratch, ignore_errors=True)
+        else:
+            f, run_id, secs = vf.extract('/repo', config)
+            shutil.copytree(f, d)
+    _PROGS[d] = facts.Program(d)
+    return _PROGS[d]
+
+
 for pid in sys.argv[2:]:
     m=importlib.import_module('rules.'+pid)
     ck=engine.Check(pid,tier,PR); ck.repo='/repo'
+    ck.extract = extract
     try:
         m.run(ck)
     except Exception as ex:
         traceback.print_exc()
     n=0
     for o in ck.obligations:
-        if not o['ok'] or '-v' in sys.argv[0:1]:
-            pass
         print('OK  ' if o['ok'] else 'FAIL', o['rule'], o['key'], '|', o['what'][:170], '|', o['loc'])
         if not o['ok'] and o.get('detail'): print('      detail:', str(o['detail'])[:1200])
     print(pid, len(ck.obligations), 'obligations', len(ck.violations()), 'violations')
